@@ -25,6 +25,8 @@ CONFIGS = {
               HF_XET_INGESTION_BLOCK_SIZE="100", HF_XET_MDB_SHARD_MIN_TARGET_SIZE="400"),
     "D": {"HF_XET_TARGET_CHUNK_SIZE": "1024", "HF_XET_MAX_XORB_CHUNKS": "8", "HF_XET_MAX_XORB_BYTES": "8192",
           "HF_XET_NRANGES_IN_STREAMING_FRAGMENTATION_ESTIMATOR": "2", "HF_XET_INGESTION_BLOCK_SIZE": "1500"},
+    # limits of the design model MC_Upload / Gen_Upload (MaxC = 2 chunks)
+    "G": dict(BASE, HF_XET_MAX_XORB_CHUNKS="2", HF_XET_MAX_XORB_BYTES="100000", HF_XET_NRANGES_IN_STREAMING_FRAGMENTATION_ESTIMATOR="2"),
     "E": {"HF_XET_TARGET_CHUNK_SIZE": "256", "HF_XET_MAX_XORB_CHUNKS": "3", "HF_XET_MAX_XORB_BYTES": "4096",
           "HF_XET_NRANGES_IN_STREAMING_FRAGMENTATION_ESTIMATOR": "128"},
 }
@@ -48,6 +50,27 @@ def run_all(ctx, props, faults=1):
     plan = [("A", "random", 40 * k, {}), ("B", "random", 12 * k, {}), ("C", "random", 15 * k, {}),
             ("D", "natural", 12 * k, {}), ("E", "natural", 8 * k, {}), ("A", "random", 12 * k, {"gd": 1})]
     counts = {}
+    # design model of the pipeline (exhaustive for 2 files x 3 chunks, one injected failure) + negative control
+    ctx.model("MC_Upload", "MC_Upload.cfg", workers=12,
+              must_cover=("PGlobalHit", "PGlobalReject", "PLocalHit", "PNew", "Finish", "FinalAgg", "FinalJoin", "DoPutEnd"))
+    ctx.model("MC_Upload", "MC_Upload_f1.cfg", expect_violation="Invs", coverage=False)
+    if thorough:
+        ctx.model("MC_Upload", "MC_Upload_big.cfg", workers=12, timeout=3400)
+    # behaviours of the model (sampled by simulation) replayed: chunk-id sequences, feed partition, cleaner
+    # schedule and fault plan are the model's, the code's behaviour is recorded and validated
+    scn = ctx.generate("Gen_Upload", "Gen_Upload.cfg", simulate="num=%d" % (300 * k), extra="-depth 60 -seed %d" % ctx.seed)
+    sp = os.path.join(w, "scn.ndjson")
+    with open(sp, "w") as f:
+        for sc in scn:
+            f.write(json.dumps(sc) + "\n")
+    if scn:
+        ctx.sample({"generated_scenario": scn[0]})
+    ctx.notes["scenarios_generated"] = len(scn)
+    t = os.path.join(w, "gen.ndjson")
+    r = vlib.xv("upload", env=CONFIGS["G"], mode="scn", seed=ctx.seed, out=t, **{"in": sp})
+    for kk, v in r["counts"].items():
+        counts[kk] = counts.get(kk, 0) + v
+    validate(ctx, t, "G-gen", props)
     for i, (cfg, mode, n, extra) in enumerate(plan):
         t = os.path.join(w, "%s_%s_%d.ndjson" % (cfg, mode, i))
         r = vlib.xv("upload", env=CONFIGS[cfg], mode=mode, n=n, seed=ctx.seed + 100 * i, faults=faults, out=t, **extra)
